@@ -4,7 +4,7 @@
    (ii) the implementation's outputs equal the model's.  Definitions only. *)
 From Coq Require Import List ZArith NArith Bool Arith.
 Import ListNotations.
-Require Import Codec.
+Require Import Codec Typed CodecUnit.
 
 Definition optZ_eq := optZ_eqb.
 Definition optdt_eqb (a b : option dtime) : bool :=
@@ -18,6 +18,8 @@ Definition optrgb_eqb (a b : option (N * N * N)) : bool :=
 Definition optbool_eqb (a b : option bool) : bool :=
   match a, b with None, None => true | Some x, Some y => Bool.eqb x y | _, _ => false end.
 
+Definition optunit_eqb (a b : option (dec * str)) : bool :=
+  match a, b with None, None => true | Some x, Some y => unit_eqb x y | _, _ => false end.
 Definition DT (y m d h mi s u : N) (z : option Z) : dtime := mkdt y m d h mi s u z.
 (* the same instant and the same offset; Z and +00:00 both decode to offset 0 *)
 Definition midnight (y m d : N) : dtime := mkdt y m d 0 0 0 0 None.
@@ -36,7 +38,9 @@ Inductive ccase :=
 | CRgb (r g b : Z) (enc : option str) (dec : option (N * N * N))   (* rgb2hex((r,g,b)) ; hex2rgb of that *)
 | CHexDec (t : str) (out : option (N * N * N))
 | CCss (name : str) (enc : option str) (dec : option (N * N * N))  (* rgb2hex(name) ; hex2rgb of that *)
-| CHexa (t : str) (out : option str).                  (* hexa_color(t) *)
+| CHexa (t : str) (out : option str)                   (* hexa_color(t) *)
+| CUnitStr (d : dec) (u : str) (enc : str) (back : option (dec * str))   (* str(Unit(d, u)) ; Unit(that) as (value.as_tuple(), unit) *)
+| CUnitDec (t : str) (out : option (dec * str)).       (* Unit(t) *)
 
 (* codes:  1 round trip / decoded value wrong   2 encoded string outside the lexical form   3 encoder differs from the model
            4 decoder differs from the model (accepts what it must reject, rejects what it must read, or another value)
@@ -116,4 +120,15 @@ Definition chk18 (css : list (str * (Z * Z * Z))) (c : ccase) : nat :=
         end
       end
   | CHexa t out => if optstr_eqb out (hexa_color_str css t) then 0 else 3
+  | CUnitStr d u enc back =>
+      (* lengths compare by numeric value and unit (Unit.__eq__) *)
+      if negb (match back with Some (d', u') => dec_num_eqb d d' && str_eqb u u' | None => false end) then 1
+      else if negb (unit_lexical enc) then 2
+      else if negb (str_eqb enc (unit_str d u)) then 3
+      else if negb (optunit_eqb back (unit_parse enc)) then 4 else 0
+  | CUnitDec t out =>
+      match out with
+      | Some v => if negb (unit_lexical t) then 2 else if optunit_eqb out (unit_parse t) then 0 else 1
+      | None => if optunit_eqb out (unit_parse t) then 0 else 4
+      end
   end.
